@@ -3,6 +3,7 @@
 from __future__ import annotations
 
 import ast
+import re
 import string
 
 from ..engine.match import dotted, norm, func_body_stmts, string_value, kwarg
@@ -97,6 +98,7 @@ def _check_main(run, P):
     run.do(_reserved, run, P)
     run.do(_storage, run, P)
     run.do(_case_length, run, P)
+    run.do(_python_variables, run, P)
     run.do(_translate_path, run, P)
     run.do(_maps_live, run, P)
     run.do(_no_prefill, run, P)
@@ -780,6 +782,48 @@ def _reserved(run, P):
                "the spelling of the name: a user variable called dagrt_ierr, dagrt_state, "
                "dagrt_nan or dagrt_refcnt_<y> maps to exactly the identifier the generator "
                "reserves for itself")
+
+
+def _python_variables(run, P):
+    """Every variable the Python printer prints is an answer of the name manager: the
+    Python generator has no names of its own making inside expressions, so a way
+    past the manager lets a user name choose its identifier."""
+    from .util import path_conditions
+    C = P.cls("dagrt.codegen.expressions.PythonExpressionMapper")
+    f = P.method(C, "map_variable")
+    if f is None or f.module.trusted:
+        raise AnalysisError("PythonExpressionMapper.map_variable not found in the repository")
+    rets = [r for r in ast.walk(f.node) if isinstance(r, ast.Return) and r.value is not None]
+    if not rets:
+        raise AnalysisError("PythonExpressionMapper.map_variable: no return")
+
+    def class_const(attr):
+        for k in P.mro(C):
+            if attr in getattr(k, "attrs", {}):
+                return k.attrs[attr]
+        return None
+    for r in rets:
+        v = r.value
+        through = (isinstance(v, ast.Subscript) and (dotted(v.value) or "").endswith("_name_manager")) or (
+            isinstance(v, ast.Call) and ".".join((dotted(v.func) or "").split(".")[:2]) == "self._name_manager") \
+            or (isinstance(v, ast.Call) and (dotted(v.func) or "").startswith("super()."))
+        ok = through
+        if not through:
+            # unreachable for this class: guarded by a class attribute that is None here
+            for t, pol in path_conditions(f.node, r):
+                m_ = re.match(r"^self\.(\w+) is not None\b", t) if pol else re.match(r"^self\.(\w+) is None$", t) \
+                    if pol is False else None
+                if m_:
+                    cv = class_const(m_.group(1))
+                    if isinstance(cv, ast.Constant) and cv.value is None:
+                        ok = True
+                    elif cv is None:
+                        raise AnalysisError(f"{f.qualname}: a return past the name manager is guarded by "
+                                            f"self.{m_.group(1)}, which is no class constant")
+        run.ob("C13.reserved", f, r, ok,
+               construct=f"{C.name}.map_variable ({f.qualname}): {norm(r, 60)} is an answer of the name manager",
+               why="a name printed as it is spelled (a prefix cut off, say) can be any identifier "
+                   "the user likes: that of another variable, of a generator attribute, a keyword")
 
 
 def _case_length(run, P):
